@@ -349,3 +349,50 @@ func VH_C06_CYCLE(ci, kind int) {
 	PlanBatchSize = 2
 	vRunToExhaustion(q, vSmallStore(), 5)
 }
+
+// Calls whose arguments are all constants are evaluated once at plan time by the constant
+// folder: every scalar function with literal arguments (symbolic digits A, B and a symbolic
+// letter C), as a WHERE operand, as a select field and nested inside another call.
+var vC06ConstCalls = []string{
+	"upper('C')", "lower('CC')", "strlen('C')", "substr('abc', A, B)", "substr('C', 0, B)", "substr('', A, B)", "substr('abc', 0, 3)",
+	"split('a,C', ',')", "split('C', '')", "join(',', 'a', 'C')", "join('', 'C')", "int('A')", "int('C')", "float('A.B')", "float('C')",
+	"str(A)", "str('C')", "is_int('A')", "is_float('C')", "json('{\"C\":A}')", "json('C')", "list(A, B)", "list('C')", "int_list('A', B)",
+	"float_list(A, 'B')", "len(list(A, B))", "len('C')", "len(split('C,C', ','))", "l2_distance(list(1, 2), list(A, B))",
+	"cosine_distance(list(A, B), list(1, 2))", "l2_distance(list(A), list(1, 2))", "split('a,b', ',')[A]", "list(1, 2)[B]",
+	"json('{\"x\":[1]}')['x'][A]", "json('{\"x\":1}')['C']",
+}
+
+func VN_C06_CONST(tier int) int { return len(vC06ConstCalls) }
+
+// VH_C06_CONST(ci, pos): pos 0 WHERE operand, 1 select field, 2 nested in str(...) / strlen(...), 3 inside a concatenation.
+func VH_C06_CONST(ci, pos int) {
+	a := vNondetBytes("A", 1, 1, "0139")
+	b := vNondetBytes("B", 1, 1, "0139")
+	c := vNondetBytes("C", 1, 1, "aA1")
+	call := ""
+	for i := 0; i < len(vC06ConstCalls[ci]); i++ {
+		switch ch := vC06ConstCalls[ci][i]; ch {
+		case 'A':
+			call += string(a)
+		case 'B':
+			call += string(b)
+		case 'C':
+			call += string(c)
+		default:
+			call += string(ch)
+		}
+	}
+	var q string
+	switch pos {
+	case 0:
+		q = "select key where value = " + call
+	case 1:
+		q = "select key, " + call + " as f where key >= ''"
+	case 2:
+		q = "select key, strlen(str(" + call + ")) where key >= ''"
+	default:
+		q = "select key where value + 'x' = " + call + " + 'x'"
+	}
+	PlanBatchSize = 2
+	vRunToExhaustion(q, vSmallStore(), 5)
+}
